@@ -317,15 +317,15 @@ Definition decode_record (omit nrefs : Z) (shared : bool) (data : list Z) : outc
   let tlen := env 11 in
   if nLen <? 1 then Err 10
   else
-    let '(nm, b) := b_unsafe b (nLen - 1) in   (* string(...) copies *)
+    let '(nm, b) := b_unsafe b (bam_Read_nameLen nLen) in   (* string(...) copies *)
     let b := b_discard b 1 in
-    let '(cb, b) := b_unsafe b (nCigar * 4) in (* readCigarOps copies *)
+    let '(cb, b) := b_unsafe b (bam_Read_cigarLen nCigar) in (* readCigarOps copies; length in the source's arithmetic *)
     let cigar := read_cigar_ops (Z.to_nat (Z.quot (zlen (odef [] cb)) 4)) (odef [] cb) in
     let var :=
       if bam_AllVariableLengthData <=? omit then Ok (0, [], None, [], false, snd b)
       else if lSeq <? 0 then Err 11
       else
-        let '(sq, b) := b_bytes shared b (Z.shiftr lSeq 1 + Z.land lSeq 1) in
+        let '(sq, b) := b_bytes shared b (bam_Read_seqLen lSeq) in
         let '(ql, b) := b_bytes shared b lSeq in
         if bam_AuxTags <=? omit then Ok (lSeq, odef [] sq, ql, [], false, snd b)
         else
